@@ -274,8 +274,8 @@ func progressScenarios(tier string) []*simScenario {
 		scenRepl(replSeedByName("isolated-tail"), dev, true, 1, 1, 4),
 		scenRepl(replSeedByName("divergent"), dev, true, 1, 1, 4),
 		scenRepl(replSeedByName("longtail"), dev, true, 1, 1, 4),
-		scenMember(memberSeeds[0], dev, 1, 0, true, nil, 0),
-		scenMember(memberSeeds[3], dev, 1, 0, true, nil, 0),
+		scenMember(memberSeedByName("3v"), dev, 1, 0, true, nil, 0),
+		scenMember(memberSeedByName("promoting"), dev, 1, 0, true, nil, 0),
 		scenSnap(snapSeeds[snapSeedIndex("lagging")], dev, true, true, 1),
 		scenTransfer(xferSeeds[0], dev, true),
 	}
